@@ -3,9 +3,9 @@
 from harness import common as C
 from harness import fasta_engine as E
 
-OPTS = {"derived": True, "singles": True, "multis": 4, "reverse": True}
-RULE = ("every FASTA file of the bounded universe exported by TLC; over each: the derived assembly, every single-row assembly (every interval x both "
-        "strands) and seeded multi-row assemblies with gaps of 0..3 buffers (and their real reversals) are streamed by the real FastaStream under "
+OPTS = {"derived": True, "singles": True, "multis": 4, "reverse": False, "strand0_rows": True}
+RULE = ("every FASTA file of the bounded universe exported by TLC; over each: the derived assembly, every single-row assembly (every interval x strands "
+        "+, -, unknown) and seeded multi-row assemblies with gaps of 0..3 buffers (and their real reversals) are streamed by the real FastaStream under "
         "buffer sizes 1,2,3,5,inf and line lengths 60,1,2,3; TLC compares the recorded lines with Wrap(Expected(rows))")
 
 
